@@ -112,7 +112,22 @@ class FreeCheck:
         s.ad = ad
         r = w.process(dev, s.N, ad)
         ok_ret = r.variant == 'Err' and r.f[0] == EOF_ERR
-        return {'suffix': True, 'calls': len(calls_of(dev)), 'errs': len(errors_of(dev)), 'returned_ok': r.variant == 'Ok', 'eof': ok_ret}
+        # C10 on the real trace: a written response is flushed before the transport is asked for more input
+        order = None
+        pending = False
+        for t in ad.trace:
+            if t[0] == 'w':
+                if pending:
+                    order = 'two writes without a flush in between'
+                pending = True
+            elif t[0] == 'f':
+                if not pending:
+                    order = 'flush without a preceding write'
+                pending = False
+            elif t[0] in ('r', 'r!') and pending:
+                order = 'the transport was asked for more input while a written response was not flushed yet'
+        return {'suffix': True, 'calls': len(calls_of(dev)), 'errs': len(errors_of(dev)), 'returned_ok': r.variant == 'Ok', 'eof': ok_ret, 'order': order,
+                'wrote': any(t[0] == 'w' for t in ad.trace)}
 
     def on_leaf(s, out):
         ex = s.ex
@@ -125,6 +140,9 @@ class FreeCheck:
                 viol.append(('SUFFIX', 'run returned a slice that is not a suffix of its input'))
             if r.get('returned_ok'):
                 viol.append(('RETURNED_OK', 'process returned Ok'))
+            if r.get('order'):
+                viol.append(('ORDER', r['order']))
+            rec['wrote'] = bool(r.get('wrote'))
         else:
             viol.append((out[0].upper(), out[1]))
         if viol:
